@@ -41,14 +41,27 @@ type C20NodeSpec struct {
 	Num   int            `json:"num"` // index into the case's pool of shared integers, -1 nil
 }
 
+// GRoot is a non-recursive wrapper written by value: with record types registered it is marshaled as a
+// record whose direct fields are pointers - a shared or cyclic pointer then appears as a reference that
+// is a direct field of a record.
+type GRoot struct {
+	A *GNode
+	B *GNode
+	C *GNode
+}
+
 type C20Case struct {
-	Records bool          `json:"records,omitempty"` // GNode / GInner registered as record types
+	Records bool          `json:"records,omitempty"` // GNode / GInner / GRoot registered as record types
+	RootB   int           `json:"root_b,omitempty"`  // when > 0 the value marshaled is GRoot{A: node 0, B: node RootB-1, C: node RootC-1}
+	RootC   int           `json:"root_c,omitempty"`
 	Format  string        `json:"format"`
 	Nodes   []C20NodeSpec `json:"nodes"`
 	Nums    []int64       `json:"nums,omitempty"` // pool of integers that nodes point to (shared *int64)
 }
 
-func (c *C20Case) build() *GNode {
+func (c *C20Case) build() *GNode { return c.buildAll()[0] }
+
+func (c *C20Case) buildAll() []*GNode {
 	nodes := make([]*GNode, len(c.Nodes))
 	for i := range nodes {
 		nodes[i] = &GNode{ID: i}
@@ -98,7 +111,7 @@ func (c *C20Case) build() *GNode {
 			n.Any = int64(i + 1000)
 		}
 	}
-	return nodes[0]
+	return nodes
 }
 
 // reachable computes features of the graph reachable from node 0.
@@ -278,6 +291,7 @@ func init() {
 		Gen: func(t *rapid.T, ctx *Ctx) interface{} {
 			c := &C20Case{Format: rapid.SampledFrom([]string{"cbe", "cte"}).Draw(t, "format")}
 			c.Records = rapid.IntRange(0, 3).Draw(t, "records") == 0
+			wrapRoot := rapid.IntRange(0, 3).Draw(t, "wraproot") == 0
 			n := rapid.IntRange(1, 12).Draw(t, "n")
 			pickNode := func(label string) int { return rapid.IntRange(0, n-1).Draw(t, label) }
 			byValue := !findingOpen("S80-pointers-inside-by-value-containers")
@@ -332,6 +346,10 @@ func init() {
 				}
 				c.Nodes = append(c.Nodes, s)
 			}
+			if wrapRoot {
+				c.RootB = 1 + pickNode("rootb")
+				c.RootC = 1 + pickNode("rootc")
+			}
 			return c
 		},
 		Check: func(ci interface{}, ctx *Ctx) error {
@@ -341,6 +359,7 @@ func init() {
 			if c.Records {
 				cfg.Iterator.RecordTypes[reflect.TypeOf(GNode{})] = "node"
 				cfg.Iterator.RecordTypes[reflect.TypeOf(GInner{})] = "inner"
+				cfg.Iterator.RecordTypes[reflect.TypeOf(GRoot{})] = "root"
 				ctx.Label("record-types")
 			}
 			shared, cyclic := c.features()
@@ -354,6 +373,46 @@ func init() {
 				}
 			}
 			ctx.Label("format:" + c.Format)
+			if c.RootB > 0 && c.RootB <= len(c.Nodes) && c.RootC > 0 && c.RootC <= len(c.Nodes) {
+				// the wrapper by value: its direct fields are (possibly shared) pointers
+				ctx.Label("root wrapped in a by-value struct")
+				nodes := c.buildAll()
+				w := GRoot{A: nodes[0], B: nodes[c.RootB-1], C: nodes[c.RootC-1]}
+				doc, err, bad := marshalDoc(ctx, c.Format, w, cfg)
+				if bad != nil {
+					return bad
+				}
+				if err != nil {
+					return fmt.Errorf("marshal of a pointer graph failed: %v", err)
+				}
+				res, err, bad := unmarshalDoc(ctx, c.Format, doc, GRoot{}, cfg)
+				if bad != nil {
+					return fmt.Errorf("%v\ndoc=%s", bad, docdump(c.Format, doc))
+				}
+				if err != nil {
+					return fmt.Errorf("unmarshal of the marshaled graph failed: %v\ndoc=%s", err, docdump(c.Format, doc))
+				}
+				var cp GRoot
+				switch r := res.(type) {
+				case GRoot:
+					cp = r
+				case *GRoot:
+					cp = *r
+				default:
+					return fmt.Errorf("result is a %v, expected GRoot", reflect.TypeOf(res))
+				}
+				isoNums = map[*int64]*int64{}
+				fwd, rev := map[*GNode]*GNode{}, map[*GNode]*GNode{}
+				for _, p := range []struct {
+					name string
+					a, b *GNode
+				}{{"$.A", w.A, cp.A}, {"$.B", w.B, cp.B}, {"$.C", w.C, cp.C}} {
+					if err := iso(p.a, p.b, fwd, rev, p.name); err != nil {
+						return fmt.Errorf("graph shape changed: %v\ndoc=%s", err, docdump(c.Format, doc))
+					}
+				}
+				return nil
+			}
 			root := c.build()
 			doc, err, bad := marshalDoc(ctx, c.Format, root, cfg)
 			if bad != nil {
